@@ -357,3 +357,13 @@ CONTRACTS.update({
         mustfail="all(" + READY_P.replace(" and wf_ok(state, n)", "") + " and not n.wait_for for n in result)",
     ),
 })
+
+CONTRACTS.update({
+    F + "compute_active_node_set": dict(
+        props=["C16", "C04"],
+        params={"graph": GRAPH},
+        returns=OPT(SET(STR)),
+        ensures=["(result is None) == (graph.entrypoints_config is None)"],
+        mustfail="result is None",
+    ),
+})
